@@ -208,6 +208,41 @@ def l3_run(chk, name, driver="mixed", strings=600, per_string=4, kinds=None, pro
     return info
 
 
+def long_run(chk, profiles=None, ops=None, random_units=60, name="long", max_bytes=None):
+    """the power law of Profiles.tla (model-checked as PowerLawHolds) applied to the real code on inputs of up to 64 KiB;
+    the results for the units themselves are judged by TLC"""
+    import shutil
+    oracle = ensure_oracle()
+    d = os.path.join(CACHE, "long-%d" % os.getpid())
+    try:
+        if max_bytes is None:
+            max_bytes = 17000 if chk.tier == "quick" else 70000
+        args = ["long", "--oracle", oracle, "--dir", d, "--seed", str(chk.seed), "--random-units", str(random_units),
+                "--max-bytes", str(max_bytes), "--threads", "12"]
+        if profiles:
+            args += ["--profiles", ",".join(profiles)]
+        if ops:
+            args += ["--ops", ",".join(ops)]
+        out, t = run_harness(args, timeout=3000)
+        summ = None
+        for line in nl_lines(out):
+            v = json.loads(line)
+            if "summary" in v:
+                summ = v["summary"]
+            elif "problem" in v:
+                pr = v["problem"]
+                chk.violation("long input: the result for a repeated / padded unit is not what the laws PowerLaw / PadLaw of the specification derive from the result for the unit: %s"
+                              % json.dumps(pr, sort_keys=True)[:800], {"layer": "long", "case": pr})
+        if summ is None:
+            tool_error("long driver gave no summary")
+        chk.add_part("long inputs: power and pad laws on inputs up to %d bytes" % summ["longest_input_bytes"], dict(summ, wall_s=round(t, 1)))
+        chk.cov["evaluations"] += summ["calls"]
+        kinds = list(ops) if ops else ["enforce", "prepare", "rule"]
+        l3_run(chk, name + "-units", driver="corpus", per_string=4, kinds=kinds, profiles=profiles, corpus_file=os.path.join(d, "units.ndjson"))
+    finally:
+        shutil.rmtree(d, ignore_errors=True)
+
+
 def race_run(chk, processes=100, long_processes=4, threads=16):
     """C16: concurrent results equal the sequential ones (pvh race); the sequential ones are judged by TLC"""
     import shutil
